@@ -16,6 +16,10 @@ CHECKS = {
              text="TLC exhausts every interleaving of 3 (thorough: 4) exchanges on a connection with 2 (3) wire IDs against a server that may reply to any ID at any time, with duplication, loss, cancellation and close at every point, checking match/no-share/ID-distinctness/monotone counter; the real PipelineTransport (UDP and TCP) is then driven by 32 concurrent callers against a seeded adversarial server (out-of-order, late-after-cancel, duplicate, unsolicited-future-ID, dropped replies, oversized writes) and one connection object is driven through more than 65536 exchanges; TLC validates the recorded hook/server/caller events against the trace specification and evaluates every C05 invariant at every event.",
              note="Real-code schedules are sampled; hook events are emitted under the connection's lock; server sends are logged before the bytes are written.",
              ref="DESIGN.md section 4 C05"),
+ "C06": dict(technique="TLA+ model of the one-at-a-time connection pool (TLC exhaustive: worker outliving caller, two-step release, idle timer, server abort, retry, close) + TLC trace validation of reuse_transport.go hook events and scripted-server/caller events",
+             text="TLC exhausts all interleavings of 3 exchanges over 2 connections with cancellation, idle-timer expiry, server abort and transport close at every point (one-outstanding, clean-idle, exclusive use, own-reply); the real ReuseConnTransport is driven by 12 concurrent callers whose deadlines fall around the reply time against a seeded server that delays, splits, half-sends, drops, aborts (FIN/RST) and closes connections while idle, with 25 ms idle and 150 ms response time-outs; TLC validates the hook/server/caller trace and evaluates the C06 invariants at every event.",
+             note="Real-code schedules are sampled; rc.* hooks are emitted under the connection's lock or by the single worker owning it; the server answers at most once per query.",
+             ref="DESIGN.md section 4 C06"),
 }
 
 PENDING_REASON = "check under construction in this round (see DESIGN.md section 4); not claimed until its machinery is committed and passes on the unchanged tree"
